@@ -67,6 +67,9 @@ def prepare(ctx):
                                          'Definition gen_entries : list (string * list (list eff)) := [].\n'
                                          'Inductive tok := TLoad | TWrite | TRaw (n : string) | TLockB (mode : string) | TLockE | TLoopB | TLoopE.\n'
                                          'Definition gen_flat : list (string * list (list tok)) := [].\nDefinition gen_append_prim : list (list tok) := [[TRaw "translator failed"]].\nDefinition gen_withlock_prim : list (list tok) := [[TRaw "translator failed"]].\n'}
+            stubs['ReplayGen.v'] = ('From ErgoBridge Require Import ReplayIR.\nFrom Coq Require Import String List.\nImport ListNotations.\nLocal Open Scope string_scope.\n'
+                                    'Definition gen_replay_cases : list (list string * list rstmt) := [].\nDefinition gen_tombstone : list tstmt := [].\n'
+                                    'Definition gen_replay_frame : list pstmt := [].\nDefinition gen_replay_prims : list (string * string) := [].\n')
             for name, text in stubs.items():
                 with open(os.path.join(COQ, 'gen', name), 'w') as f:
                     f.write('(* STUB: tools/gen failed: %s *)\n' % ctx.gen_error.replace('*)', '* )')[:200] + text)
@@ -116,26 +119,46 @@ def compile_props(ctx):
     if axioms or closed != asked:
         ctx.obligations.append(('Print Assumptions', False, 'not closed: %s' % (axioms or 'count %d/%d' % (closed, asked))))
     # bridge: obligations over the model GENERATED from the current sources by tools/gen
-    b = os.path.join(COQ, 'bridge', 'B_%s.v' % ctx.prop)
-    if os.path.exists(b):
-        bnames = re.findall(r'^Example\s+(\w+)', open(b).read(), re.M)
-        if ctx.gen_error:
-            for n in bnames:
-                ctx.obligations.append((n, False, 'translator: ' + ctx.gen_error))
-            return
-        rc, out = sh(['coqc', '-Q', 'theories', 'Ergo', '-Q', 'gen', 'ErgoGen', '-Q', 'bridge', 'ErgoBridge', '-w', '-all',
-                      os.path.join('bridge', 'B_%s.v' % ctx.prop)], cwd=COQ, timeout=900)
-        if rc != 0:
-            m = re.search(r'File "[^"]*", line (\d+).*?\nError:(.*)', out, re.S)
-            note = ('line %s: %s' % (m.group(1), ' '.join(m.group(2).split())[:300])) if m else out[-300:]
-            # say what the generated skeleton shows
-            rc2, out2 = sh(['coqtop', '-Q', 'theories', 'Ergo', '-Q', 'gen', 'ErgoGen', '-Q', 'bridge', 'ErgoBridge', '-batch'], cwd=COQ, timeout=60) if False else (0, '')
-            for n in bnames:
-                ctx.obligations.append((n, False, note))
+    for bname in ['B_%s' % ctx.prop] + EXTRA_BRIDGE.get(ctx.prop, []):
+        compile_bridge(ctx, bname)
+
+
+# replay / readiness / compaction are regenerated from graph.go; the properties that stand on them re-check the
+# equivalence theorems between the regenerated definitions and the hand-written model
+EXTRA_BRIDGE = {p: ['B_Replay'] for p in ('C05', 'C06', 'C08', 'C09', 'C14', 'C15', 'C20')}
+
+
+def compile_bridge(ctx, bname):
+    b = os.path.join(COQ, 'bridge', bname + '.v')
+    if not os.path.exists(b):
+        return
+    bnames = re.findall(r'^(?:Example|Theorem|Corollary)\s+(\w+)', open(b).read(), re.M)
+    if ctx.gen_error:
+        for n in bnames:
+            ctx.obligations.append((n, False, 'translator: ' + ctx.gen_error))
+        return
+    outdir = os.environ.get('VERIF_SCRATCH') or COQ
+    rc, out = sh(['coqc', '-Q', 'theories', 'Ergo', '-Q', 'gen', 'ErgoGen', '-Q', 'bridge', 'ErgoBridge', '-w', '-all',
+                  '-o', os.path.join(outdir, bname + '.vo'), os.path.join('bridge', bname + '.v')], cwd=COQ, timeout=900)
+    if rc != 0:
+        m = re.search(r'File "[^"]*", line (\d+).*?\nError:(.*)', out, re.S)
+        note = ('%s.v line %s: %s' % (bname, m.group(1), ' '.join(m.group(2).split())[:300])) if m else out[-300:]
+        # every theorem from the failing line on is unproved; the ones before it were accepted
+        failed_line = int(m.group(1)) if m else 0
+        starts = [(mm.start(), mm.group(1)) for mm in re.finditer(r'^(?:Example|Theorem|Corollary)\s+(\w+)', open(b).read(), re.M)]
+        src = open(b).read()
+        for pos, n in starts:
+            line = src.count('\n', 0, pos) + 1
+            nxt = min([src.count('\n', 0, p2) + 1 for p2, _ in starts if p2 > pos] or [10 ** 9])
+            ok = failed_line >= nxt if failed_line else False
+            ctx.obligations.append((n, ok, '' if ok else note))
+        if bname.startswith('B_C'):
             ctx.cov['bridge_diagnosis'] = skeleton_diagnosis()
-        else:
-            for n in bnames:
-                ctx.obligations.append((n, True, ''))
+    else:
+        if out.count('Closed under the global context') != len(re.findall(r'^Print Assumptions', open(b).read(), re.M)):
+            ctx.obligations.append((bname + ': Print Assumptions', False, 'not closed: ' + out[-300:]))
+        for n in bnames:
+            ctx.obligations.append((n, True, ''))
 
 
 def run_coqchk(ctx):
@@ -309,8 +332,9 @@ def finish(ctx):
         'wall_s': round(time.time() - ctx.t0, 1),
         'violations': len(ctx.violations),
     }
-    os.makedirs(os.path.join(VERIF, 'evidence'), exist_ok=True)
-    with open(os.path.join(VERIF, 'evidence', ctx.prop + '.json'), 'w') as f:
+    evdir = os.environ.get('VERIF_EVIDENCE_DIR') or os.path.join(VERIF, 'evidence')   # bin/mutate points this elsewhere
+    os.makedirs(evdir, exist_ok=True)
+    with open(os.path.join(evdir, ctx.prop + '.json'), 'w') as f:
         json.dump(ev, f, indent=1, default=str)
     for l in lines:
         print(l)
